@@ -74,3 +74,32 @@ fn k_points_wrong_size() {
     }
     assert!(s.len() == 40);
 }
+
+/// C13: a point record whose content is cut anywhere (the declared size is right, the data stops early) is an I/O
+/// error for every cut length, never a value with invented fields.  Loop-free over all cut lengths: complete.
+#[kani::proof]
+fn k_points_truncated_is_io_error() {
+    let buf = [0x3Fu8; 40];
+    let k: usize = kani::any();
+    kani::assume(k < 32);
+    if k < 16 {
+        let mut s: &[u8] = &buf[..k];
+        let r = Point::read_shape_content(&mut s, 16);
+        assert!(matches!(r, Err(Error::IoError(_))));
+        std::mem::forget(r);
+    }
+    if k < 24 {
+        let mut s: &[u8] = &buf[..k];
+        let r = PointM::read_shape_content(&mut s, 24);
+        assert!(matches!(r, Err(Error::IoError(_))));
+        std::mem::forget(r);
+        let mut s: &[u8] = &buf[..k];
+        let r = PointZ::read_shape_content(&mut s, 24);
+        assert!(matches!(r, Err(Error::IoError(_))));
+        std::mem::forget(r);
+    }
+    let mut s: &[u8] = &buf[..k];
+    let r = PointZ::read_shape_content(&mut s, 32);
+    assert!(matches!(r, Err(Error::IoError(_))));
+    std::mem::forget(r);
+}
